@@ -180,6 +180,8 @@ pub fn laps() -> Vec<Lap> {
         Lap { three_readers_every: 0, name: "modify-delete-recreate-refill-a-bucket-in-one-transaction", reopen_every: 50, reader_stretch: None, kind: 4 },
         Lap { three_readers_every: 0, name: "long-keys-overwrite (multi-page branch and leaf pages)", reopen_every: 0, reader_stretch: None, kind: 5 },
         Lap { three_readers_every: 0, name: "long-keys-overwrite-reopen-every-40", reopen_every: 40, reader_stretch: None, kind: 5 },
+        Lap { three_readers_every: 0, name: "one-9-MiB-value-overwritten (24 transactions)", reopen_every: 0, reader_stretch: None, kind: 6 },
+        Lap { three_readers_every: 0, name: "nested-bucket-then-ancestor-deleted-and-rebuilt", reopen_every: 0, reader_stretch: None, kind: 7 },
         Lap { three_readers_every: 60, name: "variable-size-with-three-overlapping-readers-every-60", reopen_every: 0, reader_stretch: None, kind: 1 },
         Lap { three_readers_every: 45, name: "fixed-size-with-three-overlapping-readers-every-45", reopen_every: 0, reader_stretch: None, kind: 0 },
     ]
@@ -190,6 +192,23 @@ fn lap_ops(kind: u8, i: usize) -> Vec<OpSpec> {
     if kind == 3 {
         // even: insert a block of 320 x 300 B (about 130 pages); odd: delete it again
         return if i % 2 == 0 { (0..320).map(|j| OpSpec::put(&["lap"], &format!("blk{:03}", j), "b*300")).collect() } else { (0..320).map(|j| OpSpec::del(&["lap"], &format!("blk{:03}", j))).collect() };
+    }
+    if kind == 6 {
+        // a single value larger than one growth step, rewritten by every transaction
+        return vec![OpSpec::put(&["lap"], "huge", if i % 2 == 0 { "P*9437184" } else { "Q*9437184" })];
+    }
+    if kind == 7 {
+        // even: build anc/inner with a few pages each; odd: delete the nested bucket, then its ancestor
+        return if i % 2 == 0 {
+            let mut v = vec![OpSpec::bucket("create", &["lap"], "anc"), OpSpec::bucket("create", &["lap", "anc"], "inner")];
+            for j in 0..6 {
+                v.push(OpSpec::put(&["lap", "anc"], &format!("a{}", j), "b*300"));
+                v.push(OpSpec::put(&["lap", "anc", "inner"], &format!("n{}", j), "b*300"));
+            }
+            v
+        } else {
+            vec![OpSpec::bucket("delb", &["lap", "anc"], "inner"), OpSpec::bucket("delb", &["lap"], "anc")]
+        };
     }
     if kind == 4 {
         // a committed bucket is modified, deleted, created again under the same name and refilled,
@@ -243,7 +262,7 @@ pub fn run_lap(lap: &Lap, n: usize, path: &str) -> Value {
     let mut reader_closed_at: Option<(usize, u64)> = None;
     let mut file_len_max = 0u64;
     let check_every = 1usize;
-    let n = if lap.kind == 3 { n / 5 } else if lap.name.contains("beyond 2^16") && n >= 20_000 { 70_000 } else { n };
+    let n = if lap.kind == 6 { 24 } else if lap.kind == 3 { n / 5 } else if lap.name.contains("beyond 2^16") && n >= 20_000 { 70_000 } else { n };
     for i in 0..n {
         if lap.reopen_every > 0 && i % lap.reopen_every == lap.reopen_every - 1 && r.num_readers() == 0 {
             r.step(&Action::Reopen, &Oracles::NONE);
@@ -276,7 +295,7 @@ pub fn run_lap(lap: &Lap, n: usize, path: &str) -> Value {
         }
         if i % 10 == 9 {
             // every tenth transaction is abandoned: it must not cost any page afterwards
-            let mut ops = if lap.kind == 3 { vec![] } else { lap_ops(lap.kind, i + 3) };
+            let mut ops = if lap.kind == 3 || lap.kind == 6 || lap.kind == 7 { vec![] } else { lap_ops(lap.kind, i + 3) };
             ops.push(OpSpec::put(&["lap"], "abandoned", "e*3200"));
             r.step(&Action::Tx { ops, commit: false }, &Oracles::NONE);
         }
